@@ -26,6 +26,8 @@ TRUSTED_BASE = BASE_TRUSTED + [
     'external minimiser (scipy.optimize.minimize / least_squares / dual_annealing / differential_evolution): only its '
     'contract is used - it evaluates the objective on some finite sequence of points, returns a point x* it evaluated '
     'with the value f* it saw there, f* <= f(x0), x* inside the bounds it was given; validated on every logged run',
+    'scipy.least_squares moves a start point that lies on a bound 1e-10 inside before its first evaluation; "not worse than '
+    'the start" is then checked against that first evaluation',
     'Optic.update() enters the theorems through two hypotheses (writes only pickup/solve targets; computes them from the '
     'rest of the lens); proved for the pickup manager without chained pickups, solves are not modelled (C01)',
     'operating-system behaviour of worker processes (pickling, crashes) is not modelled: a worker evaluation is an '
@@ -145,6 +147,7 @@ def gen_lens(rng, special=True, pickup_p=0.3):
         if surfs[tgt - 1].get('type', 'standard') == 'standard' and surfs[src - 1].get('type', 'standard') == 'standard':
             lens['pickups'].append([src, 'radius', tgt, rng.choice([-1.0, -0.8, 1.5]), rng.choice([0.0, -3.0])])
             surfs[tgt - 1]['radius'] = None     # overwritten by the pickup
+            surfs[tgt - 1]['conic'] = 0.0       # a plane turned into a sphere by set_radius starts with conic 0
     return lens
 
 
@@ -420,7 +423,7 @@ def gen_boundary_handle_cases():
     return cases
 
 
-BOUNDARY_VARS = [('conic', 1, 0, 0, 0.6), ('asphere_coeff', 1, 1, 0, 2e-7), ('decenter', 1, 1, 0, 0.4), ('tilt', 1, 0, 0, 0.01),
+BOUNDARY_VARS = [('conic', 1, 0, 0, 0.6), ('asphere_coeff', 1, 1, 0, 2e-6), ('decenter', 1, 1, 0, 0.4), ('tilt', 1, 0, 0, 0.01),
                  ('conic', 2, 0, 0, 0.6), ('asphere_coeff', 1, 0, 0, 2e-5)]
 BOUNDARY_FES = [('generic', {'disp': False, 'maxiter': 40}), ('least_squares', {'maxiter': 40}),
                 ('dual_annealing', {'maxiter': 5, 'disp': False}),
@@ -448,8 +451,10 @@ def gen_boundary_opt_cases(rng, n):
                {'type': 'real_y_intercept', 'target': rng.choice([-0.2, 0.2]), 'weight': 3.0,
                 'data': {'surface_number': -1, 'Hx': 0.0, 'Hy': 0.0, 'Px': 0.0, 'Py': 0.0, 'wavelength': 0.55}}]
         steps = ['opt', 'opt', 'undo', 'undo'] if fe in ('generic', 'least_squares') else ['opt']
+        beyond = (0.5 if i % 2 == 0 else -0.5) * span          # unconstrained optimum: on the far side of the 0 limit
+        tf = [float(py_scale(v, beyond) if v['scaled'] else beyond).hex()]
         cases.append({'lens': lens, 'vars': [v], 'ops': ops, 'coords': coords_for(lens, [v]), 'frontend': fe, 'kwargs': kw,
-                      'steps': steps, 'np_seed': rng.randrange(10 ** 6), 'boundary': True})
+                      'steps': steps, 'np_seed': rng.randrange(10 ** 6), 'boundary': True, 'targets_from': tf})
     return cases
 
 
@@ -811,21 +816,25 @@ def opt_oracle(c, o, bad, ci, hist):
                 out.append({'case': ci, 'clause': 'model-fixed', 'frontend': fe, 'step_index': si, 'violates_property': False,
                             'replay': {'mode': 'opt', 'case': c}})
             # contract of the external minimiser (validated, not assumed silently)
-            if log and d07:
-                hist['contract-not-checked(D07 configuration)'] = hist.get('contract-not-checked(D07 configuration)', 0) + 1
-            elif log:
+            if log:
                 if not any(all(a == b for a, b in zip(p, x)) and (f == fun or near_merit(f, fun, 1e-12)) for p, f in log) \
                         and not any(all(near(a, b, 1e-15) for a, b in zip(p, x)) and near_merit(f, fun, 1e-12) for p, f in log):
                     out.append({'case': ci, 'clause': 'contract-xstar-evaluated', 'frontend': fe, 'step_index': si,
                                 'violates_property': False, 'replay': {'mode': 'opt', 'case': c}})
-            # not worse than the start
+            # not worse than the start.  scipy.least_squares first moves a start point lying ON a bound strictly inside
+            # (make_strictly_feasible, 1e-10 absolute): its own start value is then the first logged evaluation
+            if 'least_squares' in fe and log:
+                sb = [spec_bounds(v) for v in vars_]
+                if any((lo is not None and abs(xv - lo) <= 1e-9 * max(1.0, abs(lo))) or (hi is not None and abs(xv - hi) <= 1e-9 * max(1.0, abs(hi)))
+                       for xv, (lo, hi) in zip(bvals, sb)):
+                    f0 = max(f0, log[0][1])
             if not (fun <= f0 * (1 + 1e-12) + 1e-300 or near_merit(fun, f0, 1e-9)):   # least_squares nudges an x0 lying on a bound strictly inside (1e-10)
                 W('not-worse', si, start=f0, returned_fun=fun, explained=('unscaled-bounds-scaled' if d07 else None))
             # bounded variables within bounds (lens units, read independently of the Variable classes)
             for i, v in enumerate(vars_):
                 r = araw[i]
                 lo, hi = v.get('min'), v.get('max')
-                tol = 1e-9 * (1 + abs(r))
+                tol = 1e-9 * max(abs(lo or 0.0), abs(hi or 0.0), abs(r)) + 1e-300     # relative to the scale of the limits
                 if (lo is not None and r < lo - tol) or (hi is not None and r > hi + tol):
                     W('bounds', si, var=v, lens_value=r, explained=('unscaled-bounds-scaled' if i in d07 else None))
                     break
